@@ -312,19 +312,23 @@ class ValidateInput(Contract):
             elif k in ("lr", "lr_isr"):
                 v = vc.concretize(v) if is_enum(v) else v
                 bad = zor(bad, v not in ("left", "right"))
-            elif k == "space":
-                if not isinstance(v, str):
-                    raise Unsupported("symbolic space string")
-                bad = zor(bad, "," in v or not all(c in "ph" for c in v))
-            elif k == "block":
-                if not isinstance(v, str):
-                    raise Unsupported("symbolic block string")
-                parts = v.split(",")
-                bad = zor(bad, len(parts) != 2 or not all(c in "ph" for p in parts for c in p))
-            elif k == "indices":
-                if not isinstance(v, str):
-                    raise Unsupported("symbolic indices string")
-                bad = zor(bad, len(v.split(",")) not in (1, 2))
+            elif k in ("space", "block", "indices"):
+                if isinstance(v, str):
+                    tpl = tuple(v.split(","))
+                elif isinstance(v, tuple):
+                    tpl = v
+                elif isinstance(v, PList):
+                    tpl = tuple(v.items)
+                else:
+                    raise Unsupported(f"symbolic {k}")
+                if not all(isinstance(x, str) for x in tpl):
+                    raise Unsupported(f"symbolic {k} entries")
+                if k == "space":
+                    bad = zor(bad, len(tpl) != 1 or not all(c in "ph" for c in tpl[0]))
+                elif k == "block":
+                    bad = zor(bad, len(tpl) != 2 or not all(c in "ph" for p in tpl for c in p))
+                else:
+                    bad = zor(bad, len(tpl) not in (1, 2))
             else:
                 raise Unsupported(f"validate_input({k})")
         if vc.decide(bad):
